@@ -1,4 +1,5 @@
 import PelProofs.Ilog
+import PelProofs.Loaders
 import PelGen.Live
 /-
   C14 — ILOG decoding reports every entry with the first matching table message.
@@ -70,5 +71,120 @@ theorem line_fields (tbl : List PteEntry) (e : IlogEntry) (he : e.WF) (l : Text)
       (specTimestamp_length e.ts hts) (hexFix_length _ _) (hexFix_length _ _)
     rw [c1, c2, c3, parseHexText_hexFix 4 e.seq (by omega), parseHexText_hexFix 8 e.pte (by omega)]
     exact ⟨rfl, rfl, rfl⟩
+
+/-! ### the table LOADER (`PTETable._parse_header_file` / `_add_entry` / `PTETableEntry.__init__`, modelled in
+    PelModel/Regex.lean + Loaders.lean) -/
+
+/-- ★ Printing a table as a C header (start line, `{`, one entry line per entry in the documented example format, the
+    "The End" entry, `};`) and loading it with the model of the repo's loader gives back exactly what `_add_entry` is meant to
+    store: pattern, message with blanks stripped (escaped quotes unescaped again), parameters restricted to 1..4, file, line.
+
+    Well-formedness `PteSrc.wf` (decidable): pattern non-empty, without `"` and without the seven characters that can make
+    `re.compile` raise; file without `"`; parameters single decimal digits; line number of at most 4300 digits; and
+    `quoteTailsOk msg`: NO `"` IN THE MESSAGE IS FOLLOWED BY  blanks `,` blanks `{`.  The last condition is necessary: in
+    `"((?:[^"]|\\")*)"` the alternative `[^"]` is tried first and also accepts the backslash of `\"`, so the engine first tries
+    to END the message at every escaped quote and only moves on if the REST of the pattern cannot match there; a message
+    such as `A" , { B` therefore loads as message `A\` with the parameter text ` B", {1` (see `quote_condition_needed`).
+    Backslashes in the message (also a trailing one) and newlines are harmless. -/
+theorem pte_header_roundtrip (tbl : List PteSrc) (hwf : ∀ e ∈ tbl, e.wf = true) :
+    loadPteRows (renderPteHeader tbl) = some (tbl.map normalisePte) := by
+  have := pte_header_loaded tbl hwf [] (by intro l hl; cases hl)
+  rw [List.append_nil] at this
+  exact this
+
+/-- the same for the three-field table the ILOG decoder works on -/
+theorem pte_header_roundtrip_table (tbl : List PteSrc) (hwf : ∀ e ∈ tbl, e.wf = true) :
+    loadPteTable (renderPteHeader tbl) = some (tbl.map fun e => (normalisePte e).entry) := by
+  unfold loadPteTable
+  rw [pte_header_roundtrip tbl hwf]
+  simp
+
+def demoTable : List PteSrc :=
+  [{ pattern := s "0200****", msg := s "This PEROM level = %c%c  ", params := [3, 4], file := s "states.cpp", line := 254 },
+   { pattern := s "E2082690", msg := s "P1 IO Bay VRM in \"N-Mode\", ok\\", params := [], file := s "vrm_monitor.cpp", line := 145 },
+   { pattern := s "100100**", msg := s "PS%d - Faults Cleared", params := [4, 0, 9, 1], file := s "mps.cpp", line := 0 }]
+
+example : (∀ e ∈ demoTable, e.wf = true) ∧
+    renderPteHeader demoTable =
+      [s "static struct pte_entry_struct static_pte_entry_table[PTE_TABLE_SIZE] =\n", s "{\n",
+       s "  { \"0200****\", \"This PEROM level = %c%c  \", {3, 4}, \"states.cpp\", 254 },\n",
+       s "  { \"E2082690\", \"P1 IO Bay VRM in \\\"N-Mode\\\", ok\\\", {}, \"vrm_monitor.cpp\", 145 },\n",
+       s "  { \"100100**\", \"PS%d - Faults Cleared\", {4, 0, 9, 1}, \"mps.cpp\", 0 },\n",
+       s "  { \"\"        , \"The End\" }\n", s "};\n"] ∧
+    loadPteTable (renderPteHeader demoTable) = some
+      [{ pattern := s "0200****", fmt := s "This PEROM level = %c%c", params := [3, 4] },
+       { pattern := s "E2082690", fmt := s "P1 IO Bay VRM in \"N-Mode\", ok\\", params := [] },
+       { pattern := s "100100**", fmt := s "PS%d - Faults Cleared", params := [4, 1] }] := by decide +kernel
+
+/-- the condition on quotes cannot be dropped: this entry is printed as `{ "AB", "A\" , { B", {1}, "f.cpp", 17 },` and the
+    real pattern (and the model) read the message `A\` and the parameter text ` B", {1` from it -/
+theorem quote_condition_needed :
+    let e : PteSrc := { pattern := s "AB", msg := s "A\" , { B", params := [1], file := s "f.cpp", line := 17 }
+    e.wf = false ∧
+    loadPteRows (renderPteHeader [e]) = some [{ entry := { pattern := s "AB", fmt := s "A\\", params := [1] }, file := s "f.cpp", line := 17 }] := by
+  decide +kernel
+
+/-- ★ the groups of an entry line IN ANY LAYOUT: whatever blank runs `w0 … w12` (any of Python's whitespace characters,
+    possibly empty) stand where the pattern has `\s*`, `TBL_ENTRY_RE.fullmatch` succeeds and its five groups are exactly the
+    pattern, the escaped message, the parameter text, the file and the line-number digits -/
+theorem entry_line_groups (w0 w1 w2 w3 w4 w5 w6 w7 w8 w9 w10 w11 w12 : Text)
+    (h0 : AllSp w0) (h1 : AllSp w1) (h2 : AllSp w2) (h3 : AllSp w3) (h4 : AllSp w4) (h5 : AllSp w5) (h6 : AllSp w6)
+    (h7 : AllSp w7) (h8 : AllSp w8) (h9 : AllSp w9) (h10 : AllSp w10) (h11 : AllSp w11) (h12 : AllSp w12)
+    (p : Nat) (pat msg P F : Text) (d : Nat) (ds : Text)
+    (hp : p ≠ 34) (hpat : ∀ x ∈ pat, x ≠ 34) (hmsg : quoteTailsOk msg = true) (hP : ∀ x ∈ P, x ≠ 125)
+    (hF : ∀ x ∈ F, x ≠ 34) (hd : 48 ≤ d ∧ d ≤ 57) (hds : ∀ x ∈ ds, 48 ≤ x ∧ x ≤ 57) :
+    tblEntryRe.fullmatch (entryLine w0 w1 w2 w3 w4 w5 w6 w7 w8 w9 w10 w11 w12 p pat (escapeQuote msg) P F d ds)
+      = some [(5, d :: ds), (4, F), (3, P), (2, escapeQuote msg), (1, p :: pat)] :=
+  tblEntry_fullmatch w0 w1 w2 w3 w4 w5 w6 w7 w8 w9 w10 w11 w12 h0 h1 h2 h3 h4 h5 h6 h7 h8 h9 h10 h11 h12 p pat msg P F d ds
+    hp hpat hmsg hP hF hd hds
+
+/-- a shipped-style line (two blanks, blank after the closing comma, CR already translated) is such a layout -/
+example : entryLine (s "  ") (s " ") [] (s " ") [] (s " ") [] (s " ") [] (s " ") (s " ") [] (s " \n") 69 (s "2082690")
+      (escapeQuote (s "in \"N-Mode\"   ")) [] (s "vrm_monitor.cpp") 49 (s "45")
+    = s "  { \"E2082690\", \"in \\\"N-Mode\\\"   \", {}, \"vrm_monitor.cpp\", 145 }, \n" := by decide +kernel
+
+/-- ★ lines outside the table never contribute entries: whatever stands in front of the start line and behind the end line
+    (entry lines included), as long as none of those lines is itself a start line, the loaded table is that of the table part -/
+theorem lines_outside_table_ignored (tbl : List PteSrc) (hwf : ∀ e ∈ tbl, e.wf = true) (pre post : List Text)
+    (hpre : ∀ l ∈ pre, tblStartRe.fullmatch l = none) (hpost : ∀ l ∈ post, tblStartRe.fullmatch l = none) :
+    loadPteRows (pre ++ renderPteHeader tbl ++ post) = some (tbl.map normalisePte) := by
+  unfold loadPteRows
+  rw [List.append_assoc, loadPteGo_before pre _ hpre]
+  exact pte_header_loaded tbl hwf post hpost
+
+/-- the general form, for any file: lines before the first start line are ignored, and outside a table nothing is loaded
+    until a start line comes -/
+theorem lines_before_start_ignored (pre rest : List Text) (hpre : ∀ l ∈ pre, tblStartRe.fullmatch l = none) :
+    loadPteRows (pre ++ rest) = loadPteRows rest :=
+  loadPteGo_before pre rest hpre
+
+example : let pre := [s "// x\n", renderPteLine demoTable[0], pteEndLine]
+    let post := [s "\n", renderPteLine demoTable[2], s "{\n"]
+    (∀ l ∈ pre, tblStartRe.fullmatch l = none) ∧ (∀ l ∈ post, tblStartRe.fullmatch l = none) ∧
+    loadPteRows (pre ++ renderPteHeader demoTable ++ post) = some (demoTable.map normalisePte) := by decide +kernel
+
+/-- ★ a line that matches none of the three patterns contributes nothing and does not disturb its neighbours, inside or
+    outside the table -/
+theorem non_matching_lines_skipped (a b : List Text) (bad : Text) (h1 : tblStartRe.fullmatch bad = none)
+    (h2 : tblEndRe.fullmatch bad = none) (h3 : tblEntryRe.fullmatch bad = none) :
+    loadPteRows (a ++ bad :: b) = loadPteRows (a ++ b) :=
+  loadPteGo_bad_line bad h1 h2 h3 a b false
+
+/-- e.g. an entry line whose closing comma is missing, a comment, an entry with an unescaped quote in the message -/
+example : ∀ bad ∈ [s "  { \"0200****\", \"x\", {}, \"f\", 1 }\n", s "  // comment\n", s "  { \"A\", \"in\"side\", {}, \"f\", 1 },\n"],
+    tblStartRe.fullmatch bad = none ∧ tblEndRe.fullmatch bad = none ∧ tblEntryRe.fullmatch bad = none := by decide +kernel
+
+/-- ★ end to end, header file → decoded lines: loading the printed header and decoding ILOG bytes with the loaded table gives
+    the lines the property describes for the normalised table -/
+theorem header_file_to_ilog_lines (tbl : List PteSrc) (hwf : ∀ e ∈ tbl, e.wf = true) (es : List IlogEntry) (tail : Bytes)
+    (hes : ∀ e ∈ es, e.WF) (ht : tail.length < 8) :
+    (loadPteTable (renderPteHeader tbl)).bind (fun t => parseIlog t (es.flatMap IlogEntry.enc ++ tail)) =
+      specIlog (tbl.map fun e => (normalisePte e).entry) es := by
+  rw [pte_header_roundtrip_table tbl hwf]
+  exact entries_roundtrip _ es tail hes ht
+
+/-- one entry 00:00:01 0002 02003132 decoded with the table loaded from the printed demo header -/
+example : (loadPteTable (renderPteHeader demoTable)).bind (fun t => parseIlog t [0, 1, 0, 2, 2, 0, 0x31, 0x32]) =
+    some (ilogHeading ++ [s " 0:00:01 0002 02003132 This PEROM level = 12"]) := by decide +kernel
 
 end Pel.C14
